@@ -11,6 +11,15 @@ Variable cost : A -> xnum.
 Variable copy : A -> A.
 Variable pool_perm : list A -> list A.
 
+(* helpers.get_pool_results (regenerated: a loop appending i.result() for i in as_completed(futures)) returns the results in the completion order, one per future *)
+Lemma get_pool_results_bridge l : gen_get_pool_results A pool_perm l = pool_perm l.
+Proof.
+  unfold gen_get_pool_results.
+  assert (H : forall (m acc : list A), fold_left (fun st_ i => st_ ++ [i]) m acc = acc ++ m).
+  { induction m as [|x t IH]; intros acc; cbn [fold_left]; [rewrite app_nil_r; reflexivity|]. rewrite IH, <- app_assoc. reflexivity. }
+  apply (H (pool_perm l) []).
+Qed.
+
 Lemma sort_by_cost_bridge l d : gen_sort_by_cost A cost l d = sort_by_cost cost d l.
 Proof. unfold gen_sort_by_cost, py_sort. destruct d; reflexivity. Qed.
 
@@ -80,7 +89,7 @@ Proof.
   intros Hm. unfold gen_greedy_select_population, greedy_population, py_enum_zip.
   destruct m; [congruence| |]; cbn [mode_eqb];
   rewrite !sort_by_cost_bridge, !sort_length;
-  (destruct (length new <? length pop); cbn; auto;
+  (destruct (length new <? length pop); cbn; auto; rewrite get_pool_results_bridge;
    do 2 f_equal; apply map2_ext; intros; apply greedy_select_agent_bridge).
 Qed.
 
@@ -91,7 +100,7 @@ Lemma init_population_size pop P m : (forall l, Permutation l (pool_perm l)) ->
   length (gen_init_population A pool_perm init_draw pop P m) = P /\
   Permutation (gen_init_population A pool_perm init_draw pop P m) (map init_draw (seq 0 P)).
 Proof.
-  intros Hp. unfold gen_init_population, gen_generate_agents. destruct (mode_eqb m SERIAL).
+  intros Hp. unfold gen_init_population, gen_generate_agents. rewrite get_pool_results_bridge. destruct (mode_eqb m SERIAL).
   - split; [rewrite map_length, seq_length; reflexivity|apply Permutation_refl].
   - split; [rewrite <- (Permutation_length (Hp _)), map_length, seq_length; reflexivity|apply Permutation_sym, Hp].
 Qed.
